@@ -142,8 +142,12 @@ def run_crosshair(fn, line, timeout, path_timeout):
     m = re.search(r"PATHS=(\d+)", err or "")
     if m:
         paths = int(m.group(1))
+    forks = 0
+    m = re.search(r"FORKS=(\d+)", err or "")
+    if m:
+        forks = int(m.group(1))
     if rc == 2 or "Could not import" in out:
-        return {"status": "harness_error", "raw": (out + err)[-3000:], "wall": wall, "paths": paths}
+        return {"status": "harness_error", "raw": (out + err)[-3000:], "wall": wall, "paths": paths, "forks": forks}
     if "error:" in out:
         parsed = parse_call_args(out)
         msg = out.split("error:", 1)[1].strip()
@@ -155,14 +159,15 @@ def run_crosshair(fn, line, timeout, path_timeout):
             "msg": msg[:600],
             "wall": wall,
             "paths": paths,
+            "forks": forks,
         }
     if "Confirmed over all paths" in out:
-        return {"status": "confirmed", "wall": wall, "paths": paths}
+        return {"status": "confirmed", "wall": wall, "paths": paths, "forks": forks}
     if "Unable to meet precondition" in out:
-        return {"status": "inconclusive", "why": "unable to meet precondition", "wall": wall, "paths": paths}
+        return {"status": "inconclusive", "why": "unable to meet precondition", "wall": wall, "paths": paths, "forks": forks}
     if "Not confirmed" in out:
-        return {"status": "inconclusive", "why": "not confirmed (timeout/unknown)", "wall": wall, "paths": paths}
-    return {"status": "inconclusive", "why": "no verdict: " + (out + err)[-300:], "wall": wall, "paths": paths}
+        return {"status": "inconclusive", "why": "not confirmed (timeout/unknown)", "wall": wall, "paths": paths, "forks": forks}
+    return {"status": "inconclusive", "why": "no verdict: " + (out + err)[-300:], "wall": wall, "paths": paths, "forks": forks}
 
 
 def args_for(ob, parsed):
@@ -177,7 +182,7 @@ def args_for(ob, parsed):
 # --------------------------------------------------------------------------- one obligation
 def do_ob(prop, module, ob, pres, tier):
     """returns a result dict for one CrossHair obligation (main + twin)"""
-    res = {"name": ob.name, "kind": ob.kind, "bounds": ob.bounds, "spurious": 0, "paths": 0, "solver_s": 0.0}
+    res = {"name": ob.name, "kind": ob.kind, "bounds": ob.bounds, "spurious": 0, "paths": 0, "solver_s": 0.0, "forks": 0, "replays": 0}
     names = [n for n, _ in ob.params]
     extra = []
     twin_future = None
@@ -189,6 +194,7 @@ def do_ob(prop, module, ob, pres, tier):
             fn, line = gen_file(prop, ob, pres, False, extra)
             r = run_crosshair(fn, line, ob.timeout, ob.path_timeout)
             res["paths"] += r.get("paths", 0)
+            res["forks"] += r.get("forks", 0)
             res["solver_s"] += r.get("wall", 0.0)
             if r["status"] != "cex":
                 break
@@ -199,6 +205,7 @@ def do_ob(prop, module, ob, pres, tier):
             rep = concrete(
                 module, [{"kind": "eval", "params": names, "pre": pres, "body": ob.body, "args": vals}]
             )[0]
+            res["replays"] += 1
             if rep["pre_ok"] and (rep["exc"] or rep["result"] is False):
                 r["reproduced"] = True
                 r["vals"] = vals
@@ -212,6 +219,7 @@ def do_ob(prop, module, ob, pres, tier):
         if twin_future is not None:
             t = twin_future.result()
             res["paths"] += t.get("paths", 0)
+            res["forks"] += t.get("forks", 0)
             res["solver_s"] += t.get("wall", 0.0)
             res["twin"] = t["status"] + (":" + t.get("kind", "") if t["status"] == "cex" else "")
     if r["status"] == "cex" and r.get("reproduced"):
@@ -418,6 +426,10 @@ def write_evidence(prop, tier, seed, H, obs, results, t0, kf_lines, violations=0
     n_dis = sum(1 for r in results if r["status"] == "discharged")
     n_inc = sum(1 for r in results if r["status"] == "inconclusive")
     paths = sum(r.get("paths", 0) for r in results)
+    forks = sum(r.get("forks", 0) for r in results)
+    # concrete executions of the real code outside the engine: one witness per CrossHair obligation (pre-flight), every
+    # known-finding witness, every counterexample replay
+    traces = len([o for o in obs if getattr(o, "kind", "") != "Z"]) + len(kf_lines) + sum(r.get("replays", 0) for r in results)
     funcs = sorted({f for o in obs for f in getattr(o, "funcs", [])} | set(getattr(H, "FUNCS", [])))
     obmap = {o.name: o for o in obs}
     samples = []
@@ -446,6 +458,13 @@ def write_evidence(prop, tier, seed, H, obs, results, t0, kf_lines, violations=0
         "seed": seed,
         "level": "model_checking",
         "coverage": {
+            "states": max(paths, 1),
+            "transitions": max(forks, 1),
+            "traces_validated_against_impl": traces,
+            "states_transitions_meaning": "states = symbolic execution paths explored by CrossHair over the real code (each path is the set of all "
+            "inputs satisfying its path condition; direct solver obligations count their queries); transitions = solver-decided branch points "
+            "(StateSpace.choose_possible calls, counted by lib/prelude.py) along those paths; traces_validated_against_impl = concrete untraced runs "
+            "of the real code (pre-flight witnesses, known-finding witnesses, counterexample replays)",
             "obligations": len(results),
             "discharged": n_dis,
             "inconclusive": n_inc,
